@@ -67,3 +67,11 @@ CASES += [
     dict(id='c02-eq-value-mode-local', prop='C02', file=H, expect=None,
          old="   if (p_arg_hdl->valueMode() == ValueMode::required)\n      ait2.remArgStrAsVal();", new="   const bool  needs_value = p_arg_hdl->valueMode() == ValueMode::required;\n   if (needs_value)\n      ait2.remArgStrAsVal();"),
 ]
+
+TA = 'src/celma/prog_args/detail/typed_arg.hpp'
+CASES += [
+    dict(id='c02-level-counter-checks-old-level', prop='C02', file=TA, expect='R14',
+         old="         const int          new_level = mDestVar.value() + 1;", new="         const int          new_level = mDestVar.value();"),
+    dict(id='c02-eq-level-counter-sum-order', prop='C02', file=TA, expect=None,
+         old="         const int          new_level = mDestVar.value() + 1;", new="         const int          new_level = 1 + mDestVar.value();"),
+]
